@@ -128,6 +128,10 @@ func RunSched(line string) (ans string) {
 				ans = fmt.Sprintf("crash:hang:%s(watchdog,blocked-in-gocql=%v)", h.what, strings.Contains(h.dump, "gocql.(*Conn)"))
 				return
 			}
+			if m, ok := e.(string); ok && strings.HasPrefix(m, "crash:") {
+				ans = m
+				return
+			}
 			ans = fmt.Sprintf("crash:%v", e)
 		}
 	}()
@@ -171,11 +175,28 @@ func RunSched(line string) (ans string) {
 			go func() { cn.conn.Close(); cn.conn.Stop() }()
 		}
 	}()
+	// a panic inside a call into gocql is the answer of the script
+	var crashMu sync.Mutex
+	crashed := ""
+	guard := func(c *schedCall) {
+		if e := recover(); e != nil {
+			crashMu.Lock()
+			if crashed == "" {
+				crashed = fmt.Sprintf("crash:call %d (Conn.exec):%v", c.idx, e)
+			}
+			crashMu.Unlock()
+		}
+		close(c.done)
+	}
+	crash := func() string { crashMu.Lock(); defer crashMu.Unlock(); return crashed }
 	// every wait is the wait for an event that the step makes inevitable; it is implemented by polling (two
 	// transports and the observer are the sources), the watchdog only turns a hang into a report
 	waitFor := func(cond func() bool, what string) {
 		deadline := time.Now().Add(2 * jrWatch)
 		for i := 0; !cond(); i++ {
+			if m := crash(); m != "" {
+				panic(m)
+			}
 			if i < 50 {
 				runtime.Gosched()
 			} else {
@@ -294,7 +315,7 @@ func RunSched(line string) (ans string) {
 			c.cancel = cancel
 			calls = append(calls, c)
 			if c.typ == 'b' {
-				go func() { c.buildErr, c.err = cn.conn.ExecBadFrame(ctx); close(c.done) }()
+				go func() { defer guard(c); c.buildErr, c.err = cn.conn.ExecBadFrame(ctx) }()
 				waitFor(func() bool { return rested(c) }, fmt.Sprintf("call %d (buildFrame fails) did not return", c.idx))
 				continue
 			}
@@ -302,7 +323,7 @@ func RunSched(line string) (ans string) {
 				pat := []byte(fmt.Sprintf("J%d.", c.idx))
 				cn.tr.holdNext(func(p []byte) bool { return bytes.Contains(p, pat) })
 			}
-			go func() { c.res = cn.conn.Exec(ctx, fmt.Sprintf("J%d.", c.idx)); close(c.done) }()
+			go func() { defer guard(c); c.res = cn.conn.Exec(ctx, fmt.Sprintf("J%d.", c.idx)) }()
 			if busy {
 				c.queued = true
 				waitFor(func() bool { return c.started.Load() || isDone(c) }, fmt.Sprintf("call %d never got as far as StreamStarted", c.idx))
@@ -532,6 +553,9 @@ func RunSched(line string) (ans string) {
 			return "bad-op"
 		}
 	}
+	if m := crash(); m != "" {
+		return m
+	}
 	for _, c := range calls {
 		if conns[c.conn].zed && (c.held || c.queued) {
 			return "bad-op" // (a script must let the calls that keep closeWithError waiting get on)
@@ -627,11 +651,19 @@ func GenSched(r *vh.Rng) (line, class string) {
 			c.done = true
 		}
 	}
-	start := func() {
+	start := func(force byte) {
 		k := conns[cc]
 		c := &cs{conn: cc}
 		s := ""
 		switch p := r.Intn(10); {
+		case force != 0:
+			c.typ = 'q'
+			c.L = 5 + r.Intn(60)
+			s = fmt.Sprintf("q%d", c.L)
+			if force == 'h' {
+				c.held = true
+				s = "!" + s
+			}
 		case p < 1:
 			c.typ = 'b'
 			s = "b"
@@ -648,7 +680,7 @@ func GenSched(r *vh.Rng) (line, class string) {
 				s = "!" + s
 			}
 		}
-		if r.Intn(4) == 0 {
+		if (force == 0 || force == 'q') && r.Intn(4) == 0 || force == '%' {
 			c.park = true
 			s += "%"
 		}
@@ -725,6 +757,58 @@ func GenSched(r *vh.Rng) (line, class string) {
 		}
 	}
 	n := 3 + r.Intn(8)
+	switch f := r.Intn(10); {
+	case f < 3:
+		// a connection closed by its peer while one call is inside Write and others wait for the write slot; some of those
+		// leave early (their call objects are done with while closeWithError still goes round); meanwhile calls on the
+		// OTHER connection; then the held Write returns
+		if r.Intn(2) == 0 {
+			cc = 1
+			add("@2")
+		}
+		for i := r.Intn(3); i > 0; i-- {
+			start('q')
+		}
+		start('h')
+		nq := 1 + r.Intn(4)
+		for i := 0; i < nq; i++ {
+			start('q')
+		}
+		add("z")
+		feats["close-while-inside-exec"] = true
+		conns[cc].zed = true
+		for _, c := range calls {
+			c.park = false
+			if !c.held && !c.queued && !c.parked {
+				c.done = true
+			}
+		}
+		for i, c := range calls {
+			if c.queued && (r.Intn(3) > 0) {
+				add("c%d", i+1)
+				c.queued, c.gone, c.done = false, true, true
+				feats["early-exit"], feats["early-exit-while-closing"] = true, true
+			}
+		}
+		cc = 1 - cc
+		add("@%d", cc+1)
+		for i := 1 + r.Intn(4); i > 0; i-- {
+			start('q')
+		}
+		if r.Intn(2) == 0 {
+			unhold(1 - cc)
+		}
+	case f < 5:
+		// a call parked inside releaseStream (its id is free) while further calls are started on its connection
+		for i := r.Intn(3); i > 0; i-- {
+			start('q')
+		}
+		start('%')
+		whole(len(calls) - 1)
+		for i := 1 + r.Intn(4); i > 0; i-- {
+			start('q')
+		}
+	}
 	for it := 0; it < 70; it++ {
 		k := conns[cc]
 		var answerable, cancellable, parked, queued []int
@@ -772,7 +856,7 @@ func GenSched(r *vh.Rng) (line, class string) {
 			cc = 1 - cc
 			add("@%d", cc+1)
 		case p < 40 && len(calls) < n+4 && !k.zed && k.cur < 0 && len(calls) < 30:
-			start()
+			start(0)
 		case p < 60 && len(answerable) > 0 && (len(parked) == 0 || r.Intn(3) == 0):
 			i := answerable[r.Intn(len(answerable))]
 			if r.Intn(3) == 0 {
